@@ -56,7 +56,7 @@ static inline _Bool l0_cmp(int token, const E *a, const E *b) {
 static inline const E *l0_bound(const E *f, const E *l, const E *v, int token, _Bool upper) {
   L0_assert(token == g_set_cmp_token, "C03 C04: every ordering decision uses the comparator object the set was constructed with");
   L0_assert(l0_is_key(v), "UNDECIDED: binary search for something that is not the key argument");
-  uint64_t n = L0_COUNT(l - f);
+  uint64_t n = L0_COUNT(L0_PDIFF(l, f));
   uint64_t fi = 0;
   if (n) {
     L0_assert(OBJ(f) == g_set_obj && OFF(f) >= g_set_off && (OFF(f) - g_set_off) % ESZ == 0, "C03: binary search runs on the sorted sequence of the set");
